@@ -42,6 +42,9 @@ CLAIMED = {
  "C15": ("guard-dominance in the frame decoder (size before allocation, CRC before unmarshal), encoder/decoder framing agreement (offsets, byte order, table, limit), kind and field coverage of the WAL/message codecs, structural guards of the end-height search and of replay/repair, ordering in rotation, lock pairing",
          "Decides that decoding allocates only within the size limit and unmarshals only behind a matching CRC with every non-EOF failure reported as corruption; that encoder and decoder frame identically; that both codecs handle the same kinds and all fields; that the end-height search reports only exact matches and takes its shortcut only for a positive lower height; that replay ends normally only on EOF and repair stops at the first error; and rotation order. Does not decide CRC detection strength or reader positions.",
          "DESIGN.md §4 C15"),
+ "C16": ("table cross-check of the header grammar (stream decoder, slice decoder, encoders against the RLP specification constants), guard-dominance of every accepting exit behind the canonical-form tests, guarded counter decrements and Kind-checked allocation sizes, big-endian ladder tables, sibling agreement of stream encoders with the struct their decoder reads and field-flow of wrapper codecs",
+         "Decides the structural necessary conditions of canonical RLP: tag classes, offsets and the 56 threshold agree across decoder, raw splitter and encoders; integers, strings, byte arrays, big integers, bools and sizes are accepted only behind the leading-zero, wrapped-single-byte, long-form-for-short and overflow tests; sizes are compared with list and input limits before any size-dependent allocation and before counters are decreased; DecodeBytes/ListEnd/struct/array decoders reject trailing, unread or missing elements; generated and hand-written encoders match their struct; wrapper codecs and hashes carry the same fields. Does not decide round-trip equality or rejection over all values/strings, equality with the reference implementation, or implicit panics.",
+         "DESIGN.md §4 C16"),
  "C17": ("guard-dominance checklists (validation, admission, replacement), ordering of promotion/demotion filters, guarded-by lockset with caller-propagated lock summaries for the pool mutex, lock pairing",
          "Decides that validateTx is a complete checklist against the pool's state view, that add mutates the pool only for unknown validated transactions and replaces only with the price bump, that promotion/demotion apply forward/filter/ready (and the gap rule) before moving transactions, that truncation exempts locals, and that guarded pool state is only touched with the pool mutex held from every entry point. Does not decide the pool invariant over operation sequences.",
          "DESIGN.md §4 C17"),
